@@ -1,8 +1,251 @@
 import Model.GeoIndex
 import Mathlib.Tactic
 
+/-!
+Helper lemmas for C06 (and the spatial part of C04): the tree contract, the pair
+list of a jagged answer, index translation through a permutation.
+-/
+
 namespace Geo
 
-theorem lookupUnit_km : lookupUnit "km" unitTable = some 1 := by decide +kernel
+variable {P α : Type}
+
+section Contract
+variable [LE α] [DecidableRel (α := α) (· ≤ ·)]
+
+/-- what a correct radius query reports for one query point: the positions of the
+build points within `rt` (in build order here; the tree may use any order) with their
+tree distances -/
+def specRow (dist : P → P → α) (build : List P) (q : P) (rt : α) : List (Nat × α) :=
+  (build.zipIdx.filter (fun bj => decide (dist bj.1 q ≤ rt))).map (fun bj => (bj.2, dist bj.1 q))
+
+/-- **Contract of the scikit-learn tree** (a hypothesis of the theorems, never an axiom):
+`tree_class(build, …).query_radius(qs, rt, return_distance=True)` returns two jagged
+arrays of equal shapes, one row per query point; row `q` lists, in any order, exactly
+the build positions within `rt` of `qs[q]`, each once, and next to each its distance.
+Nothing else about the tree (class, leaf size, internal order) is assumed. -/
+def TreeOK (dist : P → P → α) (T : TreeFn P α) : Prop :=
+  ∀ build qs rt, ∃ ans : List (List (Nat × α)),
+    (T build qs rt).1 = ans.map (·.map Prod.fst) ∧
+    (T build qs rt).2 = ans.map (·.map Prod.snd) ∧
+    List.Forall₂ (fun a q => a.Perm (specRow dist build q rt)) ans qs
+
+theorem mem_specRow (dist : P → P → α) (build : List P) (q : P) (rt : α) (j : Nat) (d : α) :
+    (j, d) ∈ specRow dist build q rt ↔ ∃ b, build[j]? = some b ∧ dist b q ≤ rt ∧ d = dist b q := by
+  unfold specRow
+  simp only [List.mem_map, List.mem_filter, decide_eq_true_eq, Prod.mk.injEq, Prod.exists]
+  constructor
+  · rintro ⟨b, j', ⟨hm, hle⟩, rfl, rfl⟩
+    exact ⟨b, (List.mem_zipIdx_iff_getElem?).mp hm, hle, rfl⟩
+  · rintro ⟨b, hb, hle, rfl⟩
+    exact ⟨b, j, ⟨(List.mem_zipIdx_iff_getElem?).mpr hb, hle⟩, rfl, rfl⟩
+
+theorem specRow_fst_nodup (dist : P → P → α) (build : List P) (q : P) (rt : α) :
+    ((specRow dist build q rt).map Prod.fst).Nodup := by
+  unfold specRow
+  rw [List.map_map]
+  have h : (build.zipIdx.map Prod.snd).Nodup := by
+    rw [List.zipIdx_map_snd]; exact List.nodup_range' ..
+  exact List.Nodup.sublist ((List.filter_sublist).map _) h
+
+end Contract
+
+/-! ### jagged answer → tagged list -/
+
+/-- `pairsOf` with the query counter starting at `k` -/
+def pairsOfFrom (k : Nat) (J : List (List Nat)) : List (Nat × Nat) :=
+  (J.zipIdx k).flatMap (fun bq => bq.1.map (fun b => (b, bq.2)))
+
+theorem pairsOf_eq (J : List (List Nat)) : pairsOf J = pairsOfFrom 0 J := rfl
+
+/-- all entries of a jagged answer, each tagged with its query position -/
+def tagged (k : Nat) (ans : List (List (Nat × α))) : List ((Nat × Nat) × α) :=
+  (ans.zipIdx k).flatMap (fun aq => aq.1.map (fun jd => ((jd.1, aq.2), jd.2)))
+
+theorem pairsOfFrom_map_fst (k : Nat) (ans : List (List (Nat × α))) :
+    pairsOfFrom k (ans.map (·.map Prod.fst)) = (tagged k ans).map Prod.fst := by
+  induction ans generalizing k with
+  | nil => rfl
+  | cons a rest ih =>
+    have := ih (k + 1)
+    simp only [pairsOfFrom, tagged, List.map_cons, List.zipIdx_cons, List.flatMap_cons,
+      List.map_append, List.map_map] at this ⊢
+    rw [this]
+    rfl
+
+theorem flatten_map_snd (k : Nat) (ans : List (List (Nat × α))) :
+    (ans.map (·.map Prod.snd)).flatten = (tagged k ans).map Prod.snd := by
+  induction ans generalizing k with
+  | nil => rfl
+  | cons a rest ih =>
+    have := ih (k + 1)
+    simp only [tagged, List.map_cons, List.zipIdx_cons, List.flatMap_cons, List.flatten_cons,
+      List.map_append, List.map_map] at this ⊢
+    rw [this]
+    rfl
+
+theorem tagged_perm {β : Type} (f : β → List (Nat × α)) (k : Nat) (ans : List (List (Nat × α)))
+    (qs : List β) (h : List.Forall₂ (fun a q => a.Perm (f q)) ans qs) :
+    (tagged k ans).Perm (tagged k (qs.map f)) := by
+  induction h generalizing k with
+  | nil => exact List.Perm.refl _
+  | cons hp _ ih =>
+    simp only [tagged, List.map_cons, List.zipIdx_cons, List.flatMap_cons]
+    exact List.Perm.append (hp.map _) (ih (k + 1))
+
+theorem mem_tagged (k : Nat) (ans : List (List (Nat × α))) (j q : Nat) (d : α) :
+    ((j, q), d) ∈ tagged k ans ↔ ∃ row, k ≤ q ∧ ans[q - k]? = some row ∧ (j, d) ∈ row := by
+  induction ans generalizing k with
+  | nil => simp [tagged]
+  | cons a rest ih =>
+    simp only [tagged, List.zipIdx_cons, List.flatMap_cons, List.mem_append, List.mem_map,
+      Prod.mk.injEq, Prod.exists] at ih ⊢
+    rw [ih (k + 1)]
+    constructor
+    · rintro (⟨j', d', hm, ⟨rfl, rfl⟩, rfl⟩ | ⟨row, hk, hrow, hm⟩)
+      · exact ⟨a, le_refl _, by simp, hm⟩
+      · refine ⟨row, by omega, ?_, hm⟩
+        have : q - k = (q - (k + 1)) + 1 := by omega
+        rw [this]; simpa using hrow
+    · rintro ⟨row, hk, hrow, hm⟩
+      by_cases hq : q = k
+      · subst hq
+        simp only [Nat.sub_self, List.getElem?_cons_zero, Option.some.injEq] at hrow
+        subst hrow
+        exact Or.inl ⟨j, d, hm, ⟨rfl, rfl⟩, rfl⟩
+      · right
+        have : q - k = (q - (k + 1)) + 1 := by omega
+        rw [this] at hrow
+        exact ⟨row, by omega, by simpa using hrow, hm⟩
+
+theorem mem_pairsOfFrom_ge (k : Nat) (J : List (List Nat)) (p : Nat × Nat)
+    (h : p ∈ pairsOfFrom k J) : k ≤ p.2 := by
+  induction J generalizing k with
+  | nil => simp [pairsOfFrom] at h
+  | cons r rest ih =>
+    simp only [pairsOfFrom, List.zipIdx_cons, List.flatMap_cons, List.mem_append,
+      List.mem_map] at h
+    rcases h with ⟨b, _, rfl⟩ | h
+    · exact le_refl _
+    · exact Nat.le_of_succ_le (ih (k + 1) h)
+
+theorem pairsOfFrom_nodup (k : Nat) (J : List (List Nat)) (h : ∀ r ∈ J, r.Nodup) :
+    (pairsOfFrom k J).Nodup := by
+  induction J generalizing k with
+  | nil => simp [pairsOfFrom]
+  | cons r rest ih =>
+    have hrest := ih (k + 1) (fun r' hr' => h r' (List.mem_cons_of_mem _ hr'))
+    simp only [pairsOfFrom, List.zipIdx_cons, List.flatMap_cons] at hrest ⊢
+    refine List.Nodup.append ?_ hrest ?_
+    · exact (h r List.mem_cons_self).map (fun a b hab => by simpa using hab)
+    · intro p hp1 hp2
+      have hge := mem_pairsOfFrom_ge (k + 1) rest p hp2
+      simp only [List.mem_map] at hp1
+      obtain ⟨b, _, rfl⟩ := hp1
+      simp at hge
+
+/-! ### the answer of a contract-abiding tree -/
+
+theorem forall₂_exists_of_mem {β γ : Type} {R : β → γ → Prop} {l₁ : List β} {l₂ : List γ}
+    (h : List.Forall₂ R l₁ l₂) : ∀ a ∈ l₁, ∃ b ∈ l₂, R a b := by
+  induction h with
+  | nil => simp
+  | cons hab _ ih =>
+    intro a ha
+    rcases List.mem_cons.mp ha with rfl | ha
+    · exact ⟨_, List.mem_cons_self, hab⟩
+    · obtain ⟨b, hb, hr⟩ := ih a ha
+      exact ⟨b, List.mem_cons_of_mem _ hb, hr⟩
+
+section Core
+variable [LE α] [DecidableRel (α := α) (· ≤ ·)]
+
+/-- everything the model needs to know about the raw answer of a tree that satisfies
+the contract: it is the (order-free) list `Z` of tagged entries -/
+theorem tree_answer (dist : P → P → α) (T : TreeFn P α) (hT : TreeOK dist T) (tp qs : List P)
+    (rt : α) :
+    ∃ Z : List ((Nat × Nat) × α),
+      pairsOf (T tp qs rt).1 = Z.map Prod.fst ∧ (T tp qs rt).2.flatten = Z.map Prod.snd ∧
+      (∀ j q d, ((j, q), d) ∈ Z ↔
+        ∃ b p, tp[j]? = some b ∧ qs[q]? = some p ∧ dist b p ≤ rt ∧ d = dist b p) ∧
+      (Z.map Prod.fst).Nodup := by
+  obtain ⟨ans, h1, h2, h3⟩ := hT tp qs rt
+  refine ⟨tagged 0 ans, ?_, ?_, ?_, ?_⟩
+  · rw [h1, pairsOf_eq, pairsOfFrom_map_fst]
+  · rw [h2, flatten_map_snd 0]
+  · intro j q d
+    rw [(tagged_perm (fun q => specRow dist tp q rt) 0 ans qs h3).mem_iff, mem_tagged]
+    simp only [Nat.zero_le, Nat.sub_zero, true_and, List.getElem?_map]
+    constructor
+    · rintro ⟨row, hrow, hm⟩
+      cases hq : qs[q]? with
+      | none => simp [hq] at hrow
+      | some p =>
+        simp only [hq, Option.map_some, Option.some.injEq] at hrow
+        subst hrow
+        obtain ⟨b, hb, hle, hd⟩ := (mem_specRow dist tp p rt j d).mp hm
+        exact ⟨b, p, hb, rfl, hle, hd⟩
+    · rintro ⟨b, p, hb, hp, hle, hd⟩
+      exact ⟨specRow dist tp p rt, by simp [hp], (mem_specRow dist tp p rt j d).mpr ⟨b, hb, hle, hd⟩⟩
+  · rw [← pairsOfFrom_map_fst]
+    apply pairsOfFrom_nodup
+    intro r hr
+    obtain ⟨a, ha, rfl⟩ := List.mem_map.mp hr
+    obtain ⟨q, _, hperm⟩ := forall₂_exists_of_mem h3 a ha
+    exact (hperm.map Prod.fst).nodup_iff.mpr (specRow_fst_nodup dist tp q rt)
+
+end Core
+
+/-! ### the permutation -/
+
+theorem getElem?_filterMap_getElem? (pts : List P) (σ : List Nat) (h : ∀ i ∈ σ, i < pts.length)
+    (j : Nat) : (σ.filterMap (pts[·]?))[j]? = σ[j]?.bind (pts[·]?) := by
+  induction σ generalizing j with
+  | nil => simp
+  | cons i rest ih =>
+    have hi : i < pts.length := h i List.mem_cons_self
+    have hrest : ∀ i ∈ rest, i < pts.length := fun i hi => h i (List.mem_cons_of_mem _ hi)
+    rw [List.filterMap_cons]
+    simp only [List.getElem?_eq_getElem hi]
+    cases j with
+    | zero => simp [List.getElem?_eq_getElem hi]
+    | succ j => simpa using ih hrest j
+
+theorem length_filterMap_getElem? (pts : List P) (σ : List Nat) (h : ∀ i ∈ σ, i < pts.length) :
+    (σ.filterMap (pts[·]?)).length = σ.length := by
+  induction σ with
+  | nil => rfl
+  | cons i rest ih =>
+    have hi : i < pts.length := h i List.mem_cons_self
+    rw [List.filterMap_cons]
+    simp only [List.getElem?_eq_getElem hi, List.length_cons]
+    rw [ih (fun i hi => h i (List.mem_cons_of_mem _ hi))]
+
+/-! ### kilometres ↔ tree units -/
+
+section Field
+variable [Field α] [LinearOrder α] [IsStrictOrderedRing α]
+
+theorem earthRadius_pos : (0 : α) < ((earthRadius : Nat) : α) := by
+  unfold earthRadius; positivity
+
+/-- the comparison done by the tree (metres resp. radians against the scaled radius)
+is the comparison of kilometres against the user's radius -/
+theorem le_scaleRadius_iff (m : Metric) (d r : α) :
+    d ≤ scaleRadius m r ↔ (m = .unknown ∧ d ≤ r) ∨ (m ≠ .unknown ∧ scaleDist m d ≤ r) := by
+  have hR : (0 : α) < ((earthRadius : Nat) : α) := earthRadius_pos
+  have hK : (0 : α) < ((1000 : Nat) : α) := by positivity
+  cases m with
+  | minkowski =>
+    simp only [scaleRadius, scaleDist, reduceCtorEq, false_and, ne_eq, not_false_eq_true, true_and,
+      false_or]
+    rw [div_le_iff₀ hK]
+  | haversine =>
+    simp only [scaleRadius, scaleDist, reduceCtorEq, false_and, ne_eq, not_false_eq_true, true_and,
+      false_or]
+    rw [div_le_iff₀ hK, ← mul_div_assoc, le_div_iff₀ hR]
+  | unknown => simp [scaleRadius]
+
+end Field
 
 end Geo
